@@ -219,6 +219,30 @@ def shrink(case, sig):
                     break
             if changed:
                 break
+            # colliding attributes one by one, the catch-all, the __class__ override, the shape
+            for j in range(len(spec.get("attrs", []))):
+                c2 = copy.deepcopy(cur)
+                del c2["classes"][i]["attrs"][j]
+                if still(c2):
+                    cur, changed = c2, True
+                    break
+            if changed:
+                break
+            for key in ("catch", "klass", "dc", "miss"):
+                if key in spec:
+                    c2 = copy.deepcopy(cur)
+                    del c2["classes"][i][key]
+                    if still(c2):
+                        cur, changed = c2, True
+                        break
+            if changed:
+                break
+            if spec.get("shape") not in (None, "object"):
+                c2 = copy.deepcopy(cur)
+                c2["classes"][i]["shape"] = "object"
+                if still(c2):
+                    cur, changed = c2, True
+                    break
     return cur
 
 
@@ -234,6 +258,10 @@ def correspond(rng, tier, driver):
     cases = corpus_cases()
     cases += builtin_cases(rng, tier)
     cases += user_cases(rng, 250 if tier == "quick" else 6000)
+    # student values whose attribute names collide with the proxy's own vocabulary (a sample: the search runs them all)
+    collide = [c for c in pc.collide_cases(rng, tier, budget=0 if tier == "quick" else 200)
+               if pc.structural_cause(c) is None]
+    cases += collide if tier != "quick" else rng.sample(collide, min(1500, len(collide)))
     cases = [c for c in cases if c["family"] not in ("extra", "len_fn")]
     res.cases = cases
     lines, meta = [], []
@@ -287,6 +315,9 @@ def search(rng, tier, broken, corr):
     cases += extra_cases(rng, tier)
     n_user = (600 if tier == "quick" else 12000) * (3 if broken else 1)
     cases += user_cases(rng, n_user)
+    collide = pc.collide_cases(rng, tier)
+    info["collide"] = {"cases": len(collide), "vocabulary": pc.vocabulary(), "shadowed": sorted(pc.shadowed_names())}
+    cases += collide
     for case in cases:
         info["evaluations"] += 1
         try:
